@@ -142,6 +142,17 @@ def generate(rng, tier):
             sc["removes"] = rng.sample(cands, min(len(cands), rng.randint(1, 4)))
         if kind == 0 and r % 8 == 0 and not big:
             sc["merged_ts"] = True
+        if not big and rng.random() < 0.3:
+            # other operations run on the CAS between the adds and the query (they must not change what the query
+            # returns): serialisation and type checking through the root handle or the queried view's handle
+            sc["between"] = [rng.choice(["to_xmi", "to_json", "typecheck", "select_all"]) + rng.choice(["@root", "@view"])
+                             for _ in range(rng.randint(1, 2))]
+        if not big and sc["adds"] and rng.random() < 0.25:
+            # the query span is itself an indexed annotation of the queried view (not a free-standing one)
+            own = [a for a in sc["adds"] if a["v"] == sc["q"]["v"]]
+            if own:
+                a = rng.choice(own)
+                sc["q"]["b"], sc["q"]["e"], sc["q"]["probe"] = a["b"], a["e"], a["l"]
         yield sc
 
 
@@ -165,11 +176,14 @@ def run_impl(cassis, sc):
 
     q = sc["q"]
     Ann = ts.get_type("uima.tcas.Annotation")
-    probe = Ann(begin=q["b"], end=q["e"])
+    free_probe = Ann(begin=q["b"], end=q["e"])
     view = views[q["v"]]
 
     def query():
         targ = ts.get_type(q["t"]) if q["form"] == "type" else q["t"]
+        probe = free_probe
+        if q.get("probe") is not None:
+            probe = [fs for (l, fs) in lab.values() if l == q["probe"]][0]
         return list(view.select_covered(targ, probe)), list(view.select_covering(targ, probe))
 
     add_all(sc["adds"])
@@ -177,6 +191,13 @@ def run_impl(cassis, sc):
     for l in sc.get("removes", []):
         fs = by_label[l]
         views[[a["v"] for a in sc["adds"] if a["l"] == l][0]].remove(fs)
+    for op in sc.get("between", []):
+        name, where = op.split("@")
+        h = cas if where == "root" else view
+        if name == "select_all":
+            h.select_all()
+        else:
+            getattr(h, name)()
     obs = {}
     if late:
         c0, g0 = query()
@@ -287,6 +308,8 @@ def distribution(scenarios, observations):
             "by_query_type": {t: sum(1 for s in scenarios if s["q"]["t"] == t) for t in sorted({s["q"]["t"] for s in scenarios})},
             "with_late_subtypes": sum(1 for s in scenarios if "late" in s),
             "with_removes": sum(1 for s in scenarios if s.get("removes")),
+            "with_operations_between": sum(1 for s in scenarios if s.get("between")),
+            "query_span_is_indexed_annotation": sum(1 for s in scenarios if s["q"].get("probe") is not None),
             "type_system_obtained_by_merge": sum(1 for s in scenarios if s.get("merged_ts")),
             "builtin_typed_instances": sum(1 for s in scenarios if any(a["t"].startswith("uima.") for a in s["adds"])),
             "nonempty_covered": sum(1 for o in observations if o and o["covered"]),
